@@ -170,14 +170,13 @@ theorem auth_gate_concrete (creds : List (String × String)) (hd : AuthHeader) (
   rw [hv]
   cases hd <;> simp
 
-/-! ### the two recorded deviations of the unchanged tree that concern the server model -/
+/-! ### the one recorded deviation of the unchanged tree that concerns the server model -/
 
 /-- K20: the path matches a route pattern, no route has the method (and the method is not HEAD) -/
 def methodMismatch (r : Req) : Bool :=
   r.method != "HEAD" && (expectations.filter (fun e => addresses e r)).isEmpty &&
   expectations.any (fun e => matchPat e.pat r.segs r.slash)
 
--- K21 is `lenient` (Lemmas): the code reads options out of a query the strict reading calls undecodable
 
 /-! ### the main theorem -/
 
@@ -185,7 +184,7 @@ def methodMismatch (r : Req) : Bool :=
     `Gen.routes`, by `routes_aligned`) and every request outside the three recorded deviations, the
     model's response satisfies every clause of the property. -/
 theorem model_holds_table (t : List Route) (hal : aligned t expectations = true) (r : Req)
-    (h8 : methodMismatch r = false) (h9 : lenient r = false) :
+    (h8 : methodMismatch r = false) :
     holds r (handle Gen.chain t r) = true := by
   cases ha : authorized r with
   | false => rw [handle_unauthorized t r ha]; exact holds_unauthorized ha
@@ -197,7 +196,7 @@ theorem model_holds_table (t : List Route) (hal : aligned t expectations = true)
     ⟨hn, b, hb, ho⟩ | ⟨hn, hh, e, h, he, hadr, hsh, ho⟩ | ⟨hnil, ho⟩ | ⟨hnil, hany, ho⟩
   · rw [ho]; exact holds_redirect ha hp hn
   · rw [ho]
-    exact holds_found ha hp hh hn he hadr (handler_ok h e r hsh h9) (wellShaped_handler h r e.pat)
+    exact holds_found ha hp hh hn he hadr (handler_ok h e r hsh) (wellShaped_handler h r e.pat)
   · rw [ho]; exact holds_unknown ha hp hnil (Or.inl rfl) (fun _ => rfl)
   · rw [ho]
     refine holds_unknown ha hp hnil (Or.inr rfl) ?_
@@ -209,23 +208,22 @@ theorem model_holds_table (t : List Route) (hal : aligned t expectations = true)
 
 /-- … for the route table and the handler chain of this tree -/
 theorem model_holds (r : Req)
-    (h8 : methodMismatch r = false) (h9 : lenient r = false) :
+    (h8 : methodMismatch r = false) :
     holds r (handle Gen.chain Gen.routes r) = true :=
-  model_holds_table Gen.routes routes_aligned r h8 h9
+  model_holds_table Gen.routes routes_aligned r h8
 
 /-- … and with tracing enabled (the ochttp layer passes requests through) -/
 theorem model_holds_tracing (r : Req)
-    (h8 : methodMismatch r = false) (h9 : lenient r = false) :
+    (h8 : methodMismatch r = false) :
     holds r (handle Gen.chainTracing Gen.routes r) = true := by
-  unfold handle; rw [serve_genTracing]; exact model_holds r h8 h9
+  unfold handle; rw [serve_genTracing]; exact model_holds r h8
 
 /-! ### the clauses one by one, each with only the hypothesis it needs -/
 
 /-- **fail_closed.** A request that is malformed for every route it addresses (or addresses none) is
-    answered 4xx and performs nothing.  Needs only that the code does not read options out of an
-    undecodable query (K21). -/
+    answered 4xx and performs nothing.  No hypothesis about the options is needed any more (K21 repaired). -/
 theorem fail_closed (r : Req) (ha : authorized r = true) (hp : preflight r = false)
-    (hc : nonCanonical r = false) (h9 : lenient r = false)
+    (hc : nonCanonical r = false)
     (hbad : ∀ e ∈ expectations, addresses e r = true → isMalformed (verdict e r) = true) :
     refused (handle Gen.chain Gen.routes r) = true := by
   rcases router_cases Gen.routes routes_aligned r ha hp with
@@ -233,7 +231,7 @@ theorem fail_closed (r : Req) (ha : authorized r = true) (hp : preflight r = fal
   · rw [hn] at hc; exact absurd hc (by decide)
   · rw [ho]
     have hm := hbad e he hadr
-    have hcf := handler_ok h e r hsh h9
+    have hcf := handler_ok h e r hsh
     cases hv : verdict e r with
     | malformed => rw [hv] at hcf; simpa [conforms] using hcf
     | perform w => rw [hv] at hm; simp [isMalformed] at hm
@@ -243,9 +241,9 @@ theorem fail_closed (r : Req) (ha : authorized r = true) (hp : preflight r = fal
 
 /-- **faithful.** A request that is well-formed for a route it addresses yields exactly the operation
     that one of the routes it addresses names, with exactly the CID / path / options it carried (or, if
-    it is malformed for that one, the refusal).  Needs only K21 excluded. -/
+    it is malformed for that one, the refusal).  Unconditional since the repairs of K07 and K21. -/
 theorem faithful (r : Req) (ha : authorized r = true) (hp : preflight r = false)
-    (hc : nonCanonical r = false) (h9 : lenient r = false)
+    (hc : nonCanonical r = false)
     (hgood : ∃ e ∈ expectations, addresses e r = true ∧ isMalformed (verdict e r) = false) :
     ∃ e ∈ expectations, addresses e r = true ∧ conforms (verdict e r) (handle Gen.chain Gen.routes r) = true := by
   have hne : expectations.filter (fun e => addresses e r) ≠ [] := by
@@ -258,7 +256,7 @@ theorem faithful (r : Req) (ha : authorized r = true) (hp : preflight r = false)
   · rw [hn] at hc; exact absurd hc (by decide)
   · refine ⟨e, he, hadr, ?_⟩
     rw [ho]
-    exact handler_ok h e r hsh h9
+    exact handler_ok h e r hsh
   · exact absurd hnil hne
   · exact absurd hnil hne
 
@@ -337,12 +335,12 @@ def callWf : Call → Prop
   | .pin s _ | .unpin s | .allocation s | .status s _ | .recover s _ => segOK s ∧ s.cid.isSome
   | .metrics s => segOK s
   | .pinPath p _ | .unpinPath p => ∀ s ∈ p, segOK s
+  | .statusAll m _ => m < 8192 ∧ m % 2 = 0      -- a filter made of the known status bits (bits 1..12)
   | _ => True
 
-/-- K23: a status filter that `TrackerStatus.String` writes wider than it is -/
-def clientFilterWidens : Call → Bool
-  | .statusAll m _ => widen m != m
-  | _ => false
+/-- (K23 repaired) `TrackerStatus.String` followed by `TrackerStatusFromString` is the identity on every filter
+    made of the known status bits -/
+theorem filter_roundtrip (m : Nat) (hlt : m < 8192) (heven : m % 2 = 0) : widen m = m := widen_known m hlt heven
 
 /-- **client_server_inverse.** For every client method and every well-formed argument, under every
     credential situation and every answer of the cluster: the request the client builds is routed (over
@@ -350,9 +348,9 @@ def clientFilterWidens : Call → Bool
     operation the method names with exactly the arguments given, and the client returns the server's
     answer (an error with the server's status when the server answered an error; 401 and nothing
     performed without valid credentials; an invalid path is refused before anything is sent).
-    Excluded: K01d (the answer carries origins), K23 (widened filter). -/
+    Excluded: K01d (the answer carries origins). -/
 theorem client_server_inverse (cfg : CliCfg) (c : Call) (hwf : callWf c)
-    (h1 : answerHasOrigins c = false) (h10 : clientFilterWidens c = false) :
+    (h1 : answerHasOrigins c = false) :
     cliHolds cfg c (clientCall Gen.chain Gen.routes cfg c).1 (clientCall Gen.chain Gen.routes cfg c).2 = true := by
   cases c with
   | id => exact client_id cfg
@@ -388,12 +386,12 @@ theorem client_server_inverse (cfg : CliCfg) (c : Call) (hwf : callWf c)
   | recover s l =>
     obtain ⟨c', hc⟩ := Option.isSome_iff_exists.mp hwf.2
     exact client_recover cfg s l hwf.1 c' hc
-  | statusAll m l => exact client_statusAll cfg m l (by simpa [clientFilterWidens] using h10)
+  | statusAll m l => exact client_statusAll cfg m l (widen_known m hwf.1 hwf.2)
   | recoverAll l => exact client_recoverAll cfg l
   | repoGC l => exact client_repoGC cfg l
   | metrics s => exact client_metrics cfg s hwf
 
-/-- the two client-side deviations are real: a concrete call each on which the clauses fail; and the repaired
+/-- the client-side deviation K01d is real: a concrete call on which the clauses fail; and the repaired
     K07 stays repaired: a pin with mode=direct arrives direct and stays direct once stored -/
 def cfgOpen : CliCfg := { creds := false, auth := .none, rpc := .ok }
 def sC3 : Seg := ⟨"c3", some 3, some 1003⟩
@@ -402,11 +400,12 @@ theorem client_K01d_witness :
     cliHolds cfgOpen (.pin sC3 { o0 with origins := [1] })
       (clientCall Gen.chain Gen.routes cfgOpen (.pin sC3 { o0 with origins := [1] })).1
       (clientCall Gen.chain Gen.routes cfgOpen (.pin sC3 { o0 with origins := [1] })).2 = false := by decide
-theorem client_K23_witness :
-    widen 136 = 142 ∧
+/-- (K23 repaired) a composite filter arrives unchanged -/
+theorem client_filter_arrives :
+    widen 136 = 136 ∧ widen 14 = 14 ∧ widen 1536 = 1536 ∧ widen 530 = 530 ∧
     cliHolds cfgOpen (.statusAll 136 false)
       (clientCall Gen.chain Gen.routes cfgOpen (.statusAll 136 false)).1
-      (clientCall Gen.chain Gen.routes cfgOpen (.statusAll 136 false)).2 = false := by decide
+      (clientCall Gen.chain Gen.routes cfgOpen (.statusAll 136 false)).2 = true := by decide
 
 /-! ### the add endpoint (its model: `addHandle`) -/
 
@@ -418,10 +417,10 @@ theorem add_auth_gate (r : AddReq) (h : addAuthorized r = false) : (addHandle r)
     cases hc : r.creds <;> cases ha : r.auth <;> simp_all
   simp [this]
 
-/-- a request without a multipart body, or with any pin option / add option that `AddParamsFromQuery`
-    rejects, is refused 400 with one JSON document and nothing is asked of the cluster -/
+/-- a request without a multipart body, with a query string that does not parse, or with any pin option / add
+    option that `AddParamsFromQuery` rejects, is refused 400 with one JSON document and nothing is asked of the cluster -/
 theorem add_parse_refused (r : AddReq) (ha : addAuthorized r = true)
-    (h : r.mp = .none ∨ addParams r.query r.md = none) :
+    (h : r.mp = .none ∨ hasGarbled r.query = true ∨ addParams r.query r.md = none) :
     (addHandle r).status = 400 ∧ (addHandle r).body = .docs 1 ∧ (addHandle r).ops = [] := by
   unfold addHandle
   have hna : (r.creds && r.auth != .right) = false := by
@@ -430,13 +429,15 @@ theorem add_parse_refused (r : AddReq) (ha : addAuthorized r = true)
   simp only [hna, Bool.false_eq_true, if_false]
   by_cases hm : r.mp = .none
   · simp [hm]
-  · rcases h with h | h
+  · rcases h with h | h | h
     · exact absurd h hm
     · simp [hm, h]
+    · by_cases hg : hasGarbled r.query = true <;> simp [hm, h, hg]
 
 /-- a well-formed add that the adder does not reject later (K24) asks for one allocation with the carried options, puts blocks, and pins a plain data pin
     carrying exactly the carried options (mode and pin-update do not apply to adding) -/
 theorem add_faithful (r : AddReq) (ha : addAuthorized r = true) (hm : r.mp = .ok) (p : AddParams)
+    (hg : hasGarbled r.query = false)
     (hp : addParams r.query r.md = some p) (hl : lateFailure r p = false) (hr : r.rpc = .ok)
     (w : Opts) (hw : carried r.query r.md = some w) :
     addFaithful r (addHandle r) = true := by
@@ -447,7 +448,7 @@ theorem add_faithful (r : AddReq) (ha : addAuthorized r = true) (hm : r.mp = .ok
   have hna : (r.creds && r.auth != .right) = false := by
     unfold addAuthorized at ha
     cases hc : r.creds <;> cases hau : r.auth <;> simp_all
-  simp only [hna, hm, hp, hr, Bool.false_eq_true, if_false]
+  simp only [hna, hm, hg, hp, hr, Bool.false_eq_true, if_false]
   simp [addFaithful, hw, hl, addCmp, addOpts, hpo, pinArg, pinWithOpts, depthToMode, modeToDepth, canonOpts]
 
 /-- K24 is real: a broken multipart body is answered 200 with an error trailer.  The repaired K25 stays
@@ -481,15 +482,22 @@ def req0 : Req :=
 def rDirect : Req := { req0 with query := [("mode", .valid (.mode .direct))] }
 /-- K20: PUT /pins/<cid> — 405 with an empty body -/
 def rK20 : Req := { req0 with method := "PUT" }
-/-- K21: POST /pins/<cid>?mode=<unknown> — pinned although the option does not decode -/
-def rK21 : Req := { req0 with query := [("mode", .invalid)] }
+/-- (repaired K21) POST /pins/<cid> with an option that does not decode -/
+def rBadOpt (q : List (String × QV)) : Req := { req0 with query := q }
 
 theorem pin_direct_stays_direct :
     holds rDirect (handle Gen.chain Gen.routes rDirect) = true ∧
     (handle Gen.chain Gen.routes rDirect).ops.map (·.arg) =
       [.pin (pinWithOpts 3 { (pinCid 0).opts with mode := .direct }) .direct] := by decide
 theorem K20_witness : methodMismatch rK20 = true ∧ holds rK20 (handle Gen.chain Gen.routes rK20) = false := by decide
-theorem K21_witness : lenient rK21 = true ∧ holds rK21 (handle Gen.chain Gen.routes rK21) = false := by decide
+/-- (K21 repaired) every formerly tolerated shape is refused 400 with nothing performed, and the clauses hold -/
+theorem undecodable_options_refused :
+    [ [("mode", QV.invalid)], [("user-allocations", .valid (.peers [some 1, none]))],
+      [("replication", .valid (.int 2)), ("replication-min", .invalid)],
+      [("expire-at", .valid (.exp (.future 1))), ("expire-in", .invalid)],
+      [("replication-max", .garbled)] ].all (fun q =>
+        handle Gen.chain Gen.routes (rBadOpt q) == refuse 400 &&
+        holds (rBadOpt q) (handle Gen.chain Gen.routes (rBadOpt q))) = true := by decide
 
 theorem C11_full_fails : ¬ C11_full := by
   intro h
@@ -508,7 +516,7 @@ def rPin : Req :=
                 ("origins", .valid (.nats [4])), ("name", .valid (.nat 5))],
       md := [(3, 1), (1, 2), (3, 9), (0, 7)] }
 
-example : methodMismatch rPin = false ∧ lenient rPin = false ∧
+example : methodMismatch rPin = false ∧
     (handle Gen.chain Gen.routes rPin).status = 200 ∧
     (handle Gen.chain Gen.routes rPin).ops =
       [⟨"Cluster.Pin", .pin ⟨3, .dataT, ⟨3, 3, 2, .recursive, 0, .future 9001, [(1, 2), (3, 1)], none, [4], [1, 2]⟩,
